@@ -128,3 +128,22 @@ Theorem C02_layout_output_is_the_input_any_router : forall shortest fit mk_inner
   Permutation (map (id_pair A ids) oes) es.
 Proof. exact Gs7_layout_output_any. Qed.
 Print Assumptions C02_layout_output_is_the_input_any_router.
+
+(* ---------- with the OTHER ordering option, autog.OrderingNoop (Model/PipelineNoop.v: [layout_n bk] is Layout with the
+   bands kept in the order of the layering, every positioner; Proofs/NoopPipeline*.v) ---------- *)
+From Autog Require Import PipelineNoop NoopPipeline NoopPipeline2.
+Theorem C02_component_end_to_end_noop_ordering : forall bk o g g' x, component_input g -> modelled_p5 (o_p5 o) ->
+  layout_component_n bk o g = Ok (g', x) -> E1_statement g g'.
+Proof. exact Gn1_output_graph_any. Qed.
+Print Assumptions C02_component_end_to_end_noop_ordering.
+
+Theorem C02_layout_output_is_the_input_noop_ordering : forall (A : Type) (eqA : A -> A -> bool), (forall x y, eqA x y = true <-> x = y) ->
+  forall bk o fixed sizes es ids ns oes xs, modelled_p5 (o_p5 o) ->
+  layout_n A eqA bk o fixed sizes es = Ok (ids, (ns, oes, xs)) -> o_virtual o = false ->
+  NoDup ids /\ (forall x, In x ids <-> exists p, In p es /\ In x p) /\
+  Permutation (map on_id ns) (iota 0 (length ids)) /\
+  (forall a, In a ns -> exists x, nth_error ids (on_id a) = Some x /\
+                                  (on_w a, on_h a) = SizesProofs.size_of A eqA fixed sizes x (0, 0)%Q) /\
+  Permutation (map (id_pair A ids) oes) es.
+Proof. exact Gn7_layout_output. Qed.
+Print Assumptions C02_layout_output_is_the_input_noop_ordering.
